@@ -1024,12 +1024,110 @@ pub fn run_io<C: for<'x> Cfg<'x, IoIn<'x>>>(job: &Job, acc: &mut Acc) {
     );
 }
 
+// ---- IoInput over a reader that answers with short reads and `Interrupted` (environment deviations) -----------
+
+thread_local! {
+    /// the fault schedule of the readers created by `run_io_faulty`
+    pub static IO_SCHED: std::cell::Cell<usize> = const { std::cell::Cell::new(0) };
+}
+/// schedule k -> (every read is short (1 byte)?, index of the read call that answers `Interrupted` first, or
+/// usize::MAX for none, answer `Interrupted` before EVERY read?)
+pub const IO_SCHEDULES: usize = 15;
+pub fn io_schedule(k: usize) -> (bool, usize, bool) {
+    match k {
+        0 => (false, usize::MAX, false),
+        1 => (true, usize::MAX, false),
+        2..=7 => (false, k - 2, false),
+        8..=13 => (true, k - 8, false),
+        _ => (true, usize::MAX, true),
+    }
+}
+pub const IO_SCHED_NAMES: [&str; IO_SCHEDULES] = [
+    "IoInput(reader: no deviation)",
+    "IoInput(reader: 1-byte short reads)",
+    "IoInput(reader: Interrupted at read call 0)",
+    "IoInput(reader: Interrupted at read call 1)",
+    "IoInput(reader: Interrupted at read call 2)",
+    "IoInput(reader: Interrupted at read call 3)",
+    "IoInput(reader: Interrupted at read call 4)",
+    "IoInput(reader: Interrupted at read call 5)",
+    "IoInput(reader: 1-byte short reads, Interrupted at read call 0)",
+    "IoInput(reader: 1-byte short reads, Interrupted at read call 1)",
+    "IoInput(reader: 1-byte short reads, Interrupted at read call 2)",
+    "IoInput(reader: 1-byte short reads, Interrupted at read call 3)",
+    "IoInput(reader: 1-byte short reads, Interrupted at read call 4)",
+    "IoInput(reader: 1-byte short reads, Interrupted at read call 5)",
+    "IoInput(reader: 1-byte short reads, Interrupted once before every read)",
+];
+/// A `Read + Seek` over a byte slice whose `read` deviates from the default answer as its schedule says. Every
+/// deviation is a legal answer of the `Read` contract (a short read; `ErrorKind::Interrupted`, which "typically
+/// can be retried"), so the bytes delivered are always exactly those of the slice.
+pub struct FaultyReader<'a> {
+    inner: std::io::Cursor<&'a [u8]>,
+    calls: usize,
+    pending_interrupt: bool,
+    sched: (bool, usize, bool),
+}
+impl<'a> FaultyReader<'a> {
+    pub fn new(b: &'a [u8], k: usize) -> Self {
+        FaultyReader { inner: std::io::Cursor::new(b), calls: 0, pending_interrupt: true, sched: io_schedule(k) }
+    }
+}
+impl std::io::Read for FaultyReader<'_> {
+    fn read(&mut self, buf: &mut [u8]) -> std::io::Result<usize> {
+        let (short, at, every) = self.sched;
+        let k = self.calls;
+        if every {
+            // alternate: Interrupted, then the real (short) read
+            if self.pending_interrupt {
+                self.pending_interrupt = false;
+                return Err(std::io::ErrorKind::Interrupted.into());
+            }
+            self.pending_interrupt = true;
+        }
+        self.calls += 1;
+        if k == at {
+            return Err(std::io::ErrorKind::Interrupted.into());
+        }
+        let n = if short { buf.len().min(1) } else { buf.len() };
+        self.inner.read(&mut buf[..n])
+    }
+}
+impl std::io::Seek for FaultyReader<'_> {
+    fn seek(&mut self, pos: std::io::SeekFrom) -> std::io::Result<u64> {
+        self.inner.seek(pos)
+    }
+}
+pub type IoFaultyIn<'a> = chumsky::input::IoInput<FaultyReader<'a>>;
+impl<'a> InK<'a> for IoFaultyIn<'a> {
+    type T = u8;
+    type S = SimpleSpan<usize>;
+}
+/// every case under every fault schedule of the reader (the schedule is part of the recorded kind name)
+pub fn run_io_faulty<C: for<'x> Cfg<'x, IoFaultyIn<'x>>>(job: &Job, acc: &mut Acc) {
+    let bufs: Vec<Vec<u8>> = job.inputs.iter().map(|t| t.iter().map(|c| *c as u8).collect()).collect();
+    for k in 0..IO_SCHEDULES {
+        let j = Job { kind_name: IO_SCHED_NAMES[k], ..*job };
+        run_generic::<IoFaultyIn, C>(
+            &j,
+            &|i| chumsky::input::IoInput::new(FaultyReader::new(&bufs[i][..], k)),
+            &|_| (0, 0),
+            &|i, s, _| index_norm(bufs[i].len(), s),
+            &ident,
+            acc,
+        );
+    }
+}
+
 pub type WithCtxIn<'a> = chumsky::input::WithContext<SimpleSpan<usize, u8>, &'a str>;
 impl<'a> InK<'a> for WithCtxIn<'a> {
     type T = char;
     type S = SimpleSpan<usize, u8>;
     fn to_slice<C: Cfg<'a, Self>>(p: BP<'a, Self, C>) -> BP<'a, Self, C> {
         p.to_slice().map(|s: &str| Val::Sl(buf_offset(s.as_ptr() as usize, s.len()), s.chars().map(crate::interp::TokK::to_char).collect())).boxed()
+    }
+    fn slice_with<C: Cfg<'a, Self>>(p: BP<'a, Self, C>) -> BP<'a, Self, C> {
+        p.map_with(|_, e| { let s: &str = e.slice(); Val::Sl(buf_offset(s.as_ptr() as usize, s.len()), s.chars().map(crate::interp::TokK::to_char).collect()) }).boxed()
     }
 }
 pub fn run_with_context<C: for<'x> Cfg<'x, WithCtxIn<'x>>>(job: &Job, mb: bool, acc: &mut Acc) {
@@ -1055,6 +1153,9 @@ impl<'a> InK<'a> for MapSpanIn<'a> {
     type S = core::ops::Range<usize>;
     fn to_slice<C: Cfg<'a, Self>>(p: BP<'a, Self, C>) -> BP<'a, Self, C> {
         p.to_slice().map(|s: &str| Val::Sl(buf_offset(s.as_ptr() as usize, s.len()), s.chars().map(crate::interp::TokK::to_char).collect())).boxed()
+    }
+    fn slice_with<C: Cfg<'a, Self>>(p: BP<'a, Self, C>) -> BP<'a, Self, C> {
+        p.map_with(|_, e| { let s: &str = e.slice(); Val::Sl(buf_offset(s.as_ptr() as usize, s.len()), s.chars().map(crate::interp::TokK::to_char).collect()) }).boxed()
     }
 }
 fn rebase(s: SimpleSpan) -> core::ops::Range<usize> {
